@@ -1388,8 +1388,8 @@ func main() {
 		{K: "setmaxkill", N: 700, W: 1, After: true}, {K: "alloc", N: 1},
 		{K: "setmaxkill", N: 800, W: 2, After: false}, {K: "alloc", N: 1},
 		{K: "ingest", BMs: []uint64{650, 900}}, {K: "crash"}, {K: "restart"}, {K: "alloc", N: 3}}})
-	if os.Getenv("C12_INDEXKILL") != "" {
-		// probe (finding C12-2): POST index writes the index before it raises the maximum
+	{
+		// POST index killed after its first data write (fix C12-2: the maximum is raised before the index is written)
 		dispatch(jcase{Kind: "kills", Evs: []ev{{K: "alloc", N: 5}, {K: "indexkill", N: 1000, W: 1, After: true}, {K: "alloc", N: 1}, {K: "alloc", N: 1000}}})
 	}
 	nm, nl, ni, rounds := 3, 3, 3, 30
